@@ -1,6 +1,6 @@
 (* C19 — per-case judgement of (input, formatted output) pairs (evaluated with vm_compute). *)
 From Coq Require Import Uint63.
-From SwayV Require Import Base.Util C16.Model C16.Judge C19.Model C19.Spec.
+From SwayV Require Import Base.Util C16.Model C16.Judge C19.Model C19.Spec C19.Comments.
 Open Scope N_scope.
 
 Fixpoint first_diff (a b : list stok) (i : N) : N :=
@@ -36,7 +36,19 @@ Definition judge (status : N) (sin : list N) (lin : impl_lex) (sout : list N) (l
        | _ => (6, 0)
        end.
 
-Definition case := (int * list int * ximpl_lex * list int * ximpl_lex * int)%type.
-Definition judge_all (cs : list case) : list (N * N) :=
-  map (fun c => match c with (st, si, li, so, lo, po) =>
-         judge (n_of st) (scalars_of si) (lex_of li) (scalars_of so) (lex_of lo) (n_of po) end) cs.
+(* ---- CommentMap correspondence: the real map's entries (BTreeMap order) against the model
+   (comments of the lexed stream in source order), and well-formedness (premise of the partition theorem)
+   codes: 0 equal and well-formed | 1 differ | 2 equal but not well-formed | 3 no real map (lexing failed) *)
+Inductive xcmap := XCmap (l : list (int * int)) | XCmapNone.
+Definition cmap_code (tin : list tok) (real : list centry) : N :=
+  if negb (cm_eqb (comment_map tin) real) then 1 else if cm_wfb real then 0 else 2.
+Definition judge_cmap (lin : impl_lex) (x : xcmap) : N :=
+  match x, lin with
+  | XCmap l, ILexOk tin _ _ => cmap_code tin (map (fun e => (sp_of (fst e), n_of (snd e))) l)
+  | _, _ => 3
+  end.
+
+Definition case := (int * list int * ximpl_lex * list int * ximpl_lex * int * xcmap)%type.
+Definition judge_all (cs : list case) : list (N * N * N) :=
+  map (fun c => match c with (st, si, li, so, lo, po, cm) =>
+         (judge (n_of st) (scalars_of si) (lex_of li) (scalars_of so) (lex_of lo) (n_of po), judge_cmap (lex_of li) cm) end) cs.
